@@ -199,6 +199,13 @@ def run(ctx):
     for f in sorted(P.by_bname.get(FC + '::parse_pairs', []), key=lambda g: g.id):
         E.analyse(f, entry=inv)
     E.analyse(P.fn(FC + '::on_header_read'), entry=inv)
+    # the request-start record: what is reinterpreted as a protocol struct must be there (front() of an emptied vector is undefined, and aborts under _GLIBCXX_ASSERTIONS)
+    n_before = len(E.obligations)
+    E.front_needs_element = True
+    E.analyse(P.fn(FC + '::on_start_request'), entry=inv)
+    E.front_needs_element = False
+    # of this entry point only the emptiness obligations are claimed (the sizes of the short replies it builds are not linear facts)
+    E.obligations[n_before:] = [ob for ob in E.obligations[n_before:] if ob.kind.endswith('-nonempty')]
     BSZ = 'this.f:%s::buffer_.size()' % SC
 
     def scgi_inv(engine, fn, st):
